@@ -62,7 +62,7 @@ def spectral_cell(job):
         if k.shape != (dim, n):
             res.update(error="cov_sample shape %s" % (k.shape,))
             return res
-        H = _lags(dim, ls, seed)
+        H = _lags(dim, float(m.len_scale), seed)
         c = np.cos(H @ k)
         est = c.mean(axis=1)
         rho = np.asarray(m.correlation(np.linalg.norm(H, axis=1)), dtype=float)
@@ -107,13 +107,22 @@ def build_by_history(cls, dim, ls, hist):
     elif kind == "rescale":
         m = cl(dim=dim, var=1.0, len_scale=ls, rescale=float(arg))
         m.rescale = cl(dim=dim).rescale
+    elif kind == "opts":
+        # option cell: non-default constructor options together, arg = sorted tuple of (name, value)
+        kw = dict(dim=dim, var=1.0, len_scale=ls)
+        kw.update(dict(arg))
+        m = cl(**kw)
     else:
         raise ValueError("unknown history %r" % (hist,))
     return m
 
 
 def hist_tag(hist):
-    return "%s:%s" % (hist[0], hist[1]) if hist else "constructor"
+    if not hist:
+        return "constructor"
+    if hist[0] == "opts":
+        return "opts:" + ",".join("%s=%g" % (k, v) for k, v in hist[1])
+    return "%s:%s" % (hist[0], hist[1])
 
 
 def all_cells():
@@ -786,6 +795,288 @@ def probe_broken_configs(ctx, rng, broken, n_seeds):
         sill_probe(ctx, rng, m, meta, g, gk, S, "probe: ensemble on a configuration whose correspondence disagreed:")
 
 
+
+# ----------------------------------------------------------------------------------------- option-pair cells
+OPTION_VALUES = dict(rescale=2.3, len_scale=0.7)
+
+
+def option_pairs(cls):
+    """all pairs of documented non-default constructor options of a class: rescale, len_scale, optional arguments"""
+    names = ["rescale", "len_scale"] + sorted(OPT_ARGS.get(cls, {}))
+    vals = dict(OPTION_VALUES)
+    vals.update(OPT_ARGS.get(cls, {}))
+    return [tuple(sorted(((a, float(vals[a])), (b, float(vals[b]))))) for i, a in enumerate(names) for b in names[i + 1:]]
+
+
+def option_cells(rng, armed_set, thorough):
+    """RandMeth spectral cells (MCMC, mode_no 20000) for class x option pair, classes whose plain cells are armed in all
+    dims.  Quick: one random pair per class + every pair that contains len_low (the TPL cut-off interacts with rescale)."""
+    cells = []
+    for cls in CLASSES:
+        dims = [d for d in (1, 2, 3) if (cls, d, "mcmc", 20000) in armed_set]
+        if len(dims) < 3:
+            continue
+        pairs = option_pairs(cls)
+        if thorough:
+            pick = pairs
+        else:
+            pick = [pairs[int(rng.integers(len(pairs)))]] + [pr for pr in pairs if any(k == "len_low" for k, _ in pr) and any(k == "rescale" for k, _ in pr)]
+            pick = list(dict.fromkeys(pick))
+        for pr in pick:
+            cells.append((cls, int(rng.choice(dims)), "mcmc", 20000, ("opts", pr)))
+    return cells
+
+
+def periodized_cov(m, h, L, nmax=3000):
+    """sum_n C(|h + n L|): the exact value of the FULL (untruncated) Fourier sum over the grid 2 pi Z / L (Poisson summation);
+    3000 images: slowly decaying covariances (JBessel ~ sin(h)/h, Rational ~ h^-2a) are summed to < 1e-4 of the variance"""
+    n = np.arange(-nmax, nmax + 1)
+    return float(np.sum(m.covariance(np.abs(h + n * L))))
+
+
+def fourier_exact_probe(ctx, rng, thorough):
+    """deterministic, no Monte-Carlo: the covariance of a Fourier field is the finite sum  R(h) = sum_j sf_j^2 cos(k_j h)  over the
+    implementation's mode grid and weights (C01_fourier_covariance).  In 1-D, for every class x option pair (and the defaults) and two
+    small periods, it is compared with the periodised model covariance P(h) = sum_n C(h + n L), of which it is the truncation to
+    |k| <= k_max:  spectrum >= 0  =>  0 <= P(0) - R(0) =: tail  and  |R(h) - P(h)| <= tail  at every lag.  The zero mode (k = 0 is
+    on the grid) carries weight S(0) * delta_k, large for small periods."""
+    import gstools as gs
+    from gstools.field.generator import Fourier
+    n = 0
+    for cls in CLASSES:
+        cl = getattr(gs, cls)
+        if not cl(dim=1).check_dim(1):
+            continue
+        cfgs = [()] + option_pairs(cls)
+        for pr in cfgs:
+            kw = dict(dim=1, var=float(rng.uniform(0.5, 2.0)), len_scale=float(rng.uniform(0.8, 2.5)))
+            kw.update(dict(pr))
+            try:
+                m = cl(**kw)
+                for lfac in (4.0, 8.0):
+                    ell = float(m.len_scale)
+                    L = lfac * ell
+                    M = 512 if lfac == 8.0 else 256        # k_max * len_scale = pi M / lfac ~ 200
+                    g = Fourier(m, period=[L], mode_no=[M], seed=1)
+                    w = np.asarray(g._spectrum_factor, dtype=float) ** 2
+                    km = np.asarray(g._modes, dtype=float)[0]
+                    hs = np.array([0.0, 0.2 * ell, 0.7 * ell, L / 4, L / 2])
+                    R = np.array([float((w * np.cos(km * h)).sum()) for h in hs])
+                    P = np.array([periodized_cov(m, h, L) for h in hs])
+                    n += 1
+                    ctx.count(("fourier-exact", cls, pr, lfac), hist=dict(fexact_class=cls, fexact_options="+".join(k for k, _ in pr) or "defaults"))
+                    tail = P[0] - R[0]
+                    tol = 0.004 * m.var
+                    bad = None
+                    if not np.isfinite(R).all() or not np.isfinite(w).all() or (w < 0).any():
+                        bad = "weights / covariance sum not finite or negative"
+                    elif tail < -tol:
+                        bad = "pointwise variance of the Fourier field sum_j sf_j^2 = %.5f exceeds the periodised model variance %.5f" % (R[0], P[0])
+                    elif tail > 0.3 * m.var:
+                        bad = "the mode grid up to |k| len_scale = %.0f carries only %.4f of the periodised variance %.4f" % (math.pi * M / lfac, R[0], P[0])
+                    elif np.any(np.abs(R - P) > abs(tail) + tol):
+                        i = int(np.argmax(np.abs(R - P)))
+                        bad = "covariance of the Fourier field at lag %.3f is %.5f, periodised model covariance %.5f (truncated spectral mass %.5f)" % (hs[i], R[i], P[i], tail)
+                    if bad:
+                        ctx.violation("probe: Fourier exact covariance", "%s(%s), period %.4g, mode_no %d: %s" % (cls, kw, L, M, bad),
+                                      dict(cls=cls, kwargs=kw, period=L, mode_no=M, lags=hs.tolist(), fourier_sum=R.tolist(), periodised_model=P.tolist(),
+                                           zero_mode_weight=float(w[np.argmin(np.abs(km))])),
+                                      key="fourier-exact:%s:%s" % (cls, "+".join(k for k, _ in pr) or "defaults"))
+                        break
+            except Exception as e:
+                ctx.violation("probe: Fourier exact covariance", "%s(%s): %s: %s" % (cls, kw, type(e).__name__, str(e)[:200]),
+                              dict(cls=cls, kwargs=kw), key="fourier-exact:%s:%s:exception" % (cls, "+".join(k for k, _ in pr)))
+    return n
+
+
+# ----------------------------------------------------------------------------------------- SRF operation histories
+GEN_NAMES = ("RandMeth", "Fourier", "VectorField")
+
+
+def _gen_state_kw(srf, gname):
+    g = srf.generator
+    if gname == "Fourier":
+        return dict(period=[float(x) for x in g.period], mode_no=[int(x) for x in g.mode_no])
+    kw = dict(mode_no=int(g.mode_no), sampling=g.sampling)
+    if gname == "VectorField":
+        kw["mean_velocity"] = float(g.mean_u)
+    return kw
+
+
+def fresh_field(srf, gname):
+    """what a NEWLY built SRF with the present parameter values (model, mean, generator settings, seed) returns on the present positions"""
+    import gstools as gs
+    f = gs.SRF(fresh_like(srf.model), mean=srf.mean, generator=gname, seed=srf.generator.seed, **_gen_state_kw(srf, gname))
+    return np.asarray(f(srf.pos, mesh_type=srf.mesh_type), dtype=float)
+
+
+def _rand_pos(rng, dim):
+    if rng.random() < 0.3:
+        return [np.sort(rng.uniform(-10, 10, size=int(rng.integers(2, 4)))) for _ in range(dim)], "structured"
+    n = int(rng.integers(2, 7))
+    return [rng.uniform(-10, 10, size=n) for _ in range(dim)], "unstructured"
+
+
+def _hist_model(rng, dim, kind):
+    import gstools as gs
+    kw = dict(dim=dim, var=float(rng.uniform(0.5, 2.0)), len_scale=float(rng.uniform(1.0, 4.0)))
+    if dim > 1:
+        kw.update(anis=[float(x) for x in rng.uniform(0.3, 0.9, size=dim - 1)],
+                  angles=[float(x) for x in rng.uniform(-1.5, 1.5, size=dim * (dim - 1) // 2)])
+    kw.update(OPT_ARGS.get(kind, {}))
+    return getattr(gs, kind)(**kw)
+
+
+CHANGE_KINDS = ("var", "len_scale", "len_scale_list", "anis", "angles", "rescale", "opt_arg", "replace_model", "mean",
+                "gen_mode_no", "gen_period", "gen_seed", "set_pos")
+CALL_KINDS = ("stored_pos_new_seed", "stored_pos_keep_seed", "new_pos_keep_seed", "new_pos_new_seed", "stored_pos_close_seed")
+
+
+def apply_change(rng, srf, gname, kind, st):
+    """one public, documented way of changing the object after construction; returns a description or None if not applicable"""
+    m = srf.model
+    dim = m.dim
+    if kind == "var":
+        m.var = float(rng.uniform(0.3, 3.0)); return "srf.model.var = %r" % m.var
+    if kind == "len_scale":
+        m.len_scale = float(rng.uniform(0.8, 5.0)); return "srf.model.len_scale = %r" % m.len_scale
+    if kind == "len_scale_list" and dim > 1:
+        v = [float(x) for x in rng.uniform(0.8, 5.0, size=dim)]
+        m.len_scale = v; return "srf.model.len_scale = %r" % v
+    if kind == "anis" and dim > 1:
+        v = [float(x) for x in rng.uniform(0.2, 1.5, size=dim - 1)]
+        m.anis = v; return "srf.model.anis = %r" % v
+    if kind == "angles" and dim > 1:
+        v = [float(x) for x in rng.uniform(-3.0, 3.0, size=dim * (dim - 1) // 2)]
+        m.angles = v; return "srf.model.angles = %r" % v
+    if kind == "rescale":
+        m.rescale = float(rng.uniform(0.5, 2.5)); return "srf.model.rescale = %r" % m.rescale
+    if kind == "opt_arg" and m.opt_arg:
+        k = m.opt_arg[0]
+        v = float(OPT_ARGS[m.name][k] * rng.uniform(0.8, 1.2))
+        setattr(m, k, v); return "srf.model.%s = %r" % (k, v)
+    if kind == "replace_model":
+        new = _hist_model(rng, dim, st["kinds"][int(rng.integers(len(st["kinds"])))])
+        srf.model = new; return "srf.model = %r" % new
+    if kind == "mean" and gname != "VectorField":
+        srf.mean = float(rng.normal()); return "srf.mean = %r" % srf.mean
+    if kind == "gen_mode_no":
+        if gname == "Fourier":
+            v = [int(rng.choice([4, 6, 8]))] * dim
+        else:
+            v = int(rng.choice([5, 9, 14]))
+        srf.generator.mode_no = v; return "srf.generator.mode_no = %r" % (v,)
+    if kind == "gen_period" and gname == "Fourier":
+        v = [float(rng.uniform(15, 40))] * dim
+        srf.generator.period = v; return "srf.generator.period = %r" % v
+    if kind == "gen_seed":
+        v = int(rng.integers(10 ** 6, 10 ** 9))
+        srf.generator.seed = v; return "srf.generator.seed = %r" % v
+    if kind == "set_pos":
+        pos, mt = _rand_pos(rng, dim)
+        srf.set_pos(pos, mt); return "srf.set_pos(%s, %r)" % ([p.tolist() for p in pos], mt)
+    return None
+
+
+def do_call(rng, srf, kind):
+    dim = srf.model.dim
+    if kind.startswith("new_pos"):
+        pos, mt = _rand_pos(rng, dim)
+        parg, desc = dict(pos=pos, mesh_type=mt), "pos=%s, mesh_type=%r" % ([p.tolist() for p in pos], mt)
+    else:
+        parg, desc = dict(), "pos=None"
+    if kind.endswith("new_seed"):
+        sd = int(rng.integers(10 ** 6, 10 ** 9))
+        parg["seed"] = sd; desc += ", seed=%d" % sd
+    elif kind.endswith("close_seed"):
+        # a new seed whose VALUE is close to the present one (relative difference 1e-9..1e-7)
+        sd = int(srf.generator.seed) + 1
+        parg["seed"] = sd; desc += ", seed=%d" % sd
+    out = np.asarray(srf(**parg), dtype=float)
+    return out, "srf(%s)" % desc
+
+
+def run_history(ctx, rng, gname, kind, dim, steps, label):
+    """steps: list of ("change", kind) / ("call", kind).  After every call the returned field must equal the field of a fresh SRF
+    built from the present parameters (same seed) on the present positions."""
+    import gstools as gs
+    st = dict(kinds=["Gaussian", "Exponential", kind])
+    m = _hist_model(rng, dim, kind)
+    m0 = repr(m)
+    if gname == "Fourier":
+        gk = dict(period=[float(rng.uniform(15, 40))] * dim, mode_no=[int(rng.choice([4, 6]))] * dim)
+    elif gname == "VectorField":
+        gk = dict(mode_no=int(rng.choice([6, 11])), mean_velocity=float(rng.uniform(0.5, 2.0)))
+    else:
+        gk = dict(mode_no=int(rng.choice([6, 11])))
+    seed0 = int(rng.integers(10 ** 6, 10 ** 9))
+    srf = gs.SRF(m, generator=gname, seed=seed0, **gk)
+    pos, mt = _rand_pos(rng, dim)
+    log = ["srf = SRF(%s, generator=%r, seed=%d, **%r)" % (m0, gname, seed0, gk)]
+    out = np.asarray(srf(pos, mesh_type=mt), dtype=float)
+    log.append("srf(pos=%s, mesh_type=%r)" % ([p.tolist() for p in pos], mt))
+    n_cmp = 0
+    for what, k in [("check", None)] + list(steps):
+        if what == "change":
+            d = apply_change(rng, srf, gname, k, st)
+            if d:
+                log.append(d)
+            continue
+        if what == "call":
+            out, d = do_call(rng, srf, k)
+            log.append(d)
+        ref = fresh_field(srf, gname)
+        n_cmp += 1
+        scale = float(np.max(np.abs(ref))) + math.sqrt(float(srf.model.var)) + 1e-300
+        if out.shape != ref.shape or not np.all(np.abs(out - ref) <= 1e-9 * scale):
+            ctx.violation("probe: SRF operation history",
+                          "%s / %s dim %d: after [%s] the field returned by the object differs from the field of a freshly built SRF with the "
+                          "present parameters and seed on the same positions (max |diff| %.3g, field scale %.3g) — the generated field is not a "
+                          "function of the present model: its covariance is not the present model's" % (
+                              gname, kind, dim, "; ".join(log[-3:]), float(np.max(np.abs(out - ref))) if out.shape == ref.shape else float("nan"), scale),
+                          dict(generator=gname, cls=kind, dim=dim, history=log, object_field=out.ravel().tolist(), fresh_field=ref.ravel().tolist(),
+                               present_model=repr(srf.model), present_seed=int(srf.generator.seed)),
+                          key="srf-history:%s:%s" % (gname, label))
+            return n_cmp, False
+    return n_cmp, True
+
+
+def srf_history_probe(ctx, rng, thorough):
+    """(i) systematically every 3-step history  call(pos); <one change>; <one call variant>  for the three generators,
+    (ii) random longer histories mixing all operations"""
+    n_h = n_c = 0
+    kinds = ["Gaussian", "Exponential", "Matern", "TPLGaussian", "Stable"]
+    reported = set()
+    for gname in GEN_NAMES:
+        for ck in CHANGE_KINDS:
+            for call in CALL_KINDS:
+                dim = 2 if (gname == "VectorField" or rng.random() < 0.7) else int(rng.choice([1, 3]))
+                kind = kinds[int(rng.integers(2 if (gname == "VectorField" or dim == 3) else len(kinds)))]
+                label = "%s;%s" % (ck, call)
+                if (gname, ck) in reported:
+                    continue
+                c, ok = run_history(ctx, rng, gname, kind, dim, [("change", ck), ("call", call)], label)
+                ctx.count(("srf-history", gname, ck, call), hist=dict(history_generator=gname, history_change=ck, history_call=call))
+                n_h += 1; n_c += c
+                if not ok:
+                    reported.add((gname, ck))
+    for it in range(120 if thorough else 36):
+        gname = GEN_NAMES[it % 3]
+        dim = 2 if gname == "VectorField" else int(rng.choice([1, 2, 2, 3]))
+        kind = kinds[int(rng.integers(2 if (gname == "VectorField" or dim == 3) else len(kinds)))]
+        steps = []
+        for _ in range(int(rng.integers(4, 9))):
+            if rng.random() < 0.6:
+                steps.append(("change", CHANGE_KINDS[int(rng.integers(len(CHANGE_KINDS)))]))
+            else:
+                steps.append(("call", CALL_KINDS[int(rng.integers(len(CALL_KINDS)))]))
+        steps.append(("call", CALL_KINDS[int(rng.integers(len(CALL_KINDS)))]))
+        c, ok = run_history(ctx, rng, gname, kind, dim, steps, "random")
+        ctx.count(("srf-history-random", gname, kind, dim, len(steps)), hist=dict(history_generator=gname, history_change="random sequence"))
+        n_h += 1; n_c += c
+    return n_h, n_c
+
+
 # ----------------------------------------------------------------------------------------- run
 def load_local_known(ctx):
     """known_findings.json is assembled from known_findings.d/*.json by the coordinator; until then (and in any case)
@@ -814,7 +1105,9 @@ def run(ctx):
     load_local_known(ctx)
     ctx.rule = ("spectral cells = model class x valid dim x sampling path (ppf / mcmc) x mode_no {1000, 20000} x generator seed, each "
                 "evaluated at 8 separations; correspondence cases = generator x class x dim x mode number x mesh type x nugget on/off; "
-                "ensembles = class x dim x nugget over seeds; a case is non-trivial with >= 2 modes and >= 2 points; "
+                "ensembles = class x dim x nugget over seeds; SRF histories = generator x change kind x call kind (3-step) + random operation "
+                "sequences, each call compared with a fresh object; Fourier exact = class x option pair x period in 1-D; option cells = class x "
+                "option pair; a case is non-trivial with >= 2 modes and >= 2 points; "
                 "distinct = distinct keys of those tuples")
     ctx.trusted = [
         "Coq 8.16.1 kernel (coqc); stdlib Reals axioms as printed per theorem",
@@ -832,6 +1125,7 @@ def run(ctx):
         "the rate at which the Monte-Carlo / discretisation error shrinks with the number of modes (probed only)",
         "convergence of the Fourier Riemann sum to the Bochner integral (stated as the sum; probed numerically)",
         "IncomprRandMeth covariance (model + correspondence only)",
+        "history independence of the SRF object is not a theorem: the Coq model of the pipeline is stateless and the object is compared with it (fresh object) after every operation of generated histories",
         "that numpy's uniform / normal / choice streams are uniform, normal and independent (sphere and inversion theorems take the draws as uniform)",
         "IEEE rounding (theorems are over exact reals)",
     ]
@@ -891,6 +1185,12 @@ def run(ctx):
         if broken:
             probe_broken_configs(ctx, rng, broken, 400)
         t0 = time.time()
+        n_fx = fourier_exact_probe(ctx, rng, thorough)
+        C.log("[C01] Fourier exact covariance (class x option pair x small period, 1-D): %d configurations in %.1fs" % (n_fx, time.time() - t0))
+        t0 = time.time()
+        n_h, n_c = srf_history_probe(ctx, rng, thorough)
+        C.log("[C01] SRF operation histories: %d histories, %d comparisons with fresh objects in %.1fs" % (n_h, n_c, time.time() - t0))
+        t0 = time.time()
         known_keys = {e["key"] for e in ctx.kf if e.get("status", "open") == "open"}
         armed = [c for c in all_cells() if kf_key(*c) not in known_keys]
         # verdict of a cell = the MEDIAN (by deviation/threshold ratio) of R independent generator seeds: a systematic break
@@ -906,11 +1206,13 @@ def run(ctx):
         jobs = [c + (int(rng.integers(1, 2 ** 31 - 1)), LEN_SCALE) for c in pick for _ in range(reps(c))]
         hcells = history_cells(rng, set(armed), thorough)
         jobs += [c[:4] + (int(rng.integers(1, 2 ** 31 - 1)), LEN_SCALE, c[4]) for c in hcells for _ in range(3)]
+        ocells = option_cells(rng, set(armed), thorough)
+        jobs += [c[:4] + (int(rng.integers(1, 2 ** 31 - 1)), LEN_SCALE, c[4]) for c in ocells]
         C.log("[C01] cell selection %.1fs" % (time.time() - t0))
         t0 = time.time()
         res = pool.map(spectral_cell, jobs, chunksize=1)
-        C.log("[C01] spectral cells: %d armed (of %d; %d are open known findings), %d cells + %d setter-history cells / %d generators evaluated in %.1fs" % (
-            len(armed), len(all_cells()), len(known_keys), len(pick), len(hcells), len(jobs), time.time() - t0))
+        C.log("[C01] spectral cells: %d armed (of %d; %d are open known findings), %d cells + %d setter-history cells + %d option-pair cells / %d generators evaluated in %.1fs" % (
+            len(armed), len(all_cells()), len(known_keys), len(pick), len(hcells), len(ocells), len(jobs), time.time() - t0))
         worst = 0.0
         groups = {}
         for r in res:
